@@ -115,8 +115,8 @@ theorem swLoop_mods (adj : List Link) (t : List TEdge) (conns : Conns) : ∀ (ks
 /-- PORT_MODS = CHANGES.  One `_update_tree()`: (i) a switch state that agreed with `_prev` before and applies the port_mods sent
     agrees with `_prev` afterwards; (ii) a port_mod is sent for (switch, port) iff its `_prev` entry changed; (iii) every port_mod
     carries the new `_prev` value. -/
-theorem updateTree_mods (adj : List Link) (order : List Nat) (conns : Conns) (pv pv' : Prev) (mods : List PortMod)
-    (h : updateTree adj order conns pv = .ok (pv', mods)) :
+theorem updateTree_mods (va : Bool) (adj : List Link) (order : List Nat) (conns : Conns) (pv pv' : Prev) (mods : List PortMod)
+    (h : updateTree va adj order conns pv = .ok (pv', mods)) :
     (∀ b, Agree b pv → Agree (applyMods b mods) pv') ∧
     (∀ sw p, (∃ f, (⟨sw, p, f⟩ : PortMod) ∈ mods) ↔ pv'.get (sw, p) ≠ pv.get (sw, p)) ∧
     (∀ m ∈ mods, pv'.get (m.sw, m.port) = some m.flood) := by
@@ -126,7 +126,7 @@ theorem updateTree_mods (adj : List Link) (order : List Nat) (conns : Conns) (pv
   | ok t =>
     rw [hct] at h
     simp only [Except.ok.injEq] at h
-    obtain ⟨new, e, hm, ha⟩ := swLoop_mods adj t conns (treeKeys t) (pv, [])
+    obtain ⟨new, e, hm, ha⟩ := swLoop_mods adj t conns (visited va t conns) (pv, [])
     rw [h] at e ha
     simp only [List.nil_append] at e
     subst e
@@ -156,13 +156,13 @@ theorem updateTree_mods (adj : List Link) (order : List Nat) (conns : Conns) (pv
 
 /-- RECOVERY after a failed send (`_prev` cleared): the next `_update_tree()` that goes through sends a port_mod for every port below
     `OFPP_MAX` of every connected tree switch, so WHATEVER the NO_FLOOD bits were before, those ports end with the right bit. -/
-theorem update_from_cleared (adj : List Link) (order : List Nat) (conns : Conns) (pv' : Prev) (mods : List PortMod)
-    (t : List TEdge) (ht : calcTreeL adj order = .ok t) (h : updateTree adj order conns [] = .ok (pv', mods)) (b : Prev) :
-    ∀ sw ∈ treeKeys t, ∀ ports, conns.get sw = some ports → ∀ p ∈ ports, p < OFPP_MAX →
+theorem update_from_cleared (va : Bool) (adj : List Link) (order : List Nat) (conns : Conns) (pv' : Prev) (mods : List PortMod)
+    (t : List TEdge) (ht : calcTreeL adj order = .ok t) (h : updateTree va adj order conns [] = .ok (pv', mods)) (b : Prev) :
+    ∀ sw ∈ visited va t conns, ∀ ports, conns.get sw = some ports → ∀ p ∈ ports, p < OFPP_MAX →
       (applyMods b mods).get (sw, p) = some (floodOf adj (treePorts t sw) sw p) := by
   intro sw hsw ports hp p hpp hlt
-  have hg := updateTree_post adj order conns [] pv' mods t ht h sw hsw ports hp p hpp hlt
-  obtain ⟨_, h2, h3⟩ := updateTree_mods adj order conns [] pv' mods h
+  have hg := updateTree_post va adj order conns [] pv' mods t ht h sw hsw ports hp p hpp hlt
+  obtain ⟨_, h2, h3⟩ := updateTree_mods va adj order conns [] pv' mods h
   have hne : pv'.get (sw, p) ≠ Prev.get [] (sw, p) := by rw [hg]; simp [Prev.get]
   obtain ⟨f, hf⟩ := (h2 sw p).mpr hne
   apply applyMods_touched (sw, p) _ mods b ⟨_, hf, rfl⟩
@@ -172,9 +172,9 @@ theorem update_from_cleared (adj : List Link) (order : List Nat) (conns : Conns)
   exact (Option.some.inj this).symm
 
 /-- a failed send leaves `_prev` empty and has delivered a prefix of the port_mods of the undisturbed run -/
-theorem updateTreeF_failed (adj : List Link) (order : List Nat) (conns : Conns) (pv pv' : Prev) (mods : List PortMod) (k : Nat)
-    (h : updateTree adj order conns pv = .ok (pv', mods)) (hk : k < mods.length) :
-    updateTreeF adj order conns pv (some k) = .ok ([], mods.take k) := by
+theorem updateTreeF_failed (va : Bool) (adj : List Link) (order : List Nat) (conns : Conns) (pv pv' : Prev) (mods : List PortMod) (k : Nat)
+    (h : updateTree va adj order conns pv = .ok (pv', mods)) (hk : k < mods.length) :
+    updateTreeF va adj order conns pv (some k) = .ok ([], mods.take k) := by
   unfold updateTreeF; rw [h]; simp [hk]
 
 end Pox.STree
